@@ -169,3 +169,20 @@ check(
     "DESIGN.md section 3 C19",
     "unitlab",
 )
+
+ENGINES[0]["serves_properties"].append("C09")
+ENGINES[-1 if ENGINES[-1]["name"] == "gridlab" else 2]["serves_properties"].append("C09")
+check(
+    "C09",
+    "exploration",
+    "Unit stratum: Hypothesis parameters of the radial spacing function over all seven analytic branches and both "
+    "orderings, incl. a constructed stratum on the branch thresholds: end values, monotonicity at the indices used (or "
+    "refusal by the 1d-grid guard), requested end gradients and vanishing second derivative (one-sided Richardson "
+    "differences), continuity in every parameter across branch switches, nesting under n -> 2n. Grid stratum: per-region "
+    "psi_vals of generated grids (monotone, centres midway, shared boundary values, requested core/SOL limits, separatrix "
+    "values are faces, dx = face difference = psixy_xlow difference) and nx -> 2nx derived equilibria keep every face.",
+    "Trusted base: finite-difference bands as stated in the evidence assumptions; end-gradient ratio range [1e-3, 8].",
+    "Hypothesis PBT with algebraic/metamorphic oracles (end values, monotonicity, derivative constraints, continuity, nesting)",
+    "DESIGN.md section 3 C09",
+    "unitlab",
+)
